@@ -36,7 +36,7 @@ THEOREMS = ['C06_indices_first_fastest', 'C06_items_array',
             'C06_square_base_vectors_translate', 'C06_outward_sense',
             'C06_square_errors', 'C06_compose_transform_point',
             'C06_develop_lattice_located', 'C06_develop_lattice_complete',
-            'C06_dimension_checks_spec', 'C06_degenerate_range_refuted',
+            'C06_dimension_checks_spec', 'C06_degenerate_ranges_developed',
             'C06_square_sides_irrelevant', 'C06_develop_lattice_square',
             'C06_extract_surfaces', 'C06_parse_ranges_spelled',
             'C06_parse_lattice_option', 'C06_getitem_tuple_last_fastest']
@@ -68,8 +68,7 @@ ASSUMPTIONS = [
     'C06_develop_lattice_located: ranges with lo <= hi, an array of exactly '
     'size(ranges) entries, the dimension test of the code passes (as many '
     'ranges as base vectors, or as many non-trivial ranges as base vectors: '
-    'C06_dimension_checks_spec; outside it C06_degenerate_range_refuted, '
-    'finding degenerate_range_rejected), filltr empty or 12 numbers, at most '
+    'C06_dimension_checks_spec), filltr empty or 12 numbers, at most '
     'one TRCL of 12 numbers',
     'a lattice cell with both TRCL and a fill transformation is tied but not '
     'swept (MCNP semantics not fixed by the reference)',
@@ -179,12 +178,22 @@ def witness_rotation():
 
 
 def witness_degenerate():
+    '''Regression (repaired in /repo 9b5a8f0): the one-row array must be
+    accepted and put the three elements along x only.'''
     conv = impl.convert(WITNESS_DEGENERATE, [])
-    if conv.ok:
-        return None
-    if conv.exc == 'LatticeError' and 'non-trivial bounds' in conv.msg:
+    if not conv.ok or conv.text is None:
         return ('2-D lattice with FILL=-1:1 0:0 0:0 (one row) is rejected: '
-                f'{conv.exc}: {conv.msg[:120]}')
+                f'{conv.exc}: {(conv.msg or "")[:120]}')
+    t4 = impl.T4File(conv.text)
+    want = {(2.0, 0.0, 0.0): ['m11_-1.0'], (-2.0, 0.1, 0.0): ['m11_-1.0'],
+            (0.0, 0.0, 0.0): ['m3_-1.0'], (2.0, 0.8, 0.0): ['m12_-1.0'],
+            (-1.2, -0.9, 3.0): ['m12_-1.0'], (0.9, -0.9, -3.0): ['m3_-1.0'],
+            (0.0, 2.0, 0.0): [], (2.0, -2.0, 0.0): [], (4.0, 0.0, 0.0): []}
+    for point, comps in want.items():
+        got = owners_at(t4, list(point))
+        if got != comps:
+            return ('2-D lattice with FILL=-1:1 0:0 0:0 5 1 5: point '
+                    f'{point} lies in {got}, expected {comps}')
     return None
 
 
@@ -497,7 +506,7 @@ def run(res, tier, seed, proofs_ok):
     if why:
         res.violation('impl-violation', why,
                       {'input': {'deck': WITNESS_DEGENERATE, 'args': []}},
-                      cls='degenerate_range_rejected', found_input=True)
+                      cls=None, found_input=True)   # repaired in 9b5a8f0
 
     import time
     t0 = time.time()
@@ -893,9 +902,9 @@ def direct_ties(res, rng, quick):
 
 
 def classify(deck, meta, failure):
-    '''Narrow class of a sweep failure, or None.  (The only open class of
-    C06, degenerate_range_rejected, is a rejected deck, not a point failure;
-    lattice_fill_rotation was repaired in /repo a82b50a.)'''
+    '''Narrow class of a sweep failure, or None.  C06 has no open class:
+    lattice_fill_rotation was repaired in /repo a82b50a,
+    degenerate_range_rejected in 9b5a8f0.'''
     return None
 
 
@@ -952,6 +961,9 @@ def deck_stream(res, rng, quick):
             res.count('container transformed')
         if meta['nested']:
             res.count('nested lattice as filler')
+        if meta['degenerate_low_dim']:
+            res.count('one-point range in an own dimension of a 1-D/2-D '
+                      'lattice with three ranges')
         if fault:
             res.count('fault:' + fault)
         if k in (0, n_valid):
@@ -997,16 +1009,6 @@ def deck_stream(res, rng, quick):
             res.count('broken:' + ('converted' if conv.ok else str(conv.exc)))
             continue
         if not conv.ok or conv.text is None:
-            if meta['degenerate_low_dim'] and conv.exc == 'LatticeError' \
-                    and 'non-trivial bounds' in conv.msg:
-                res.count('rejected: one-point range in a 1-D/2-D lattice')
-                res.violation('impl-violation',
-                              'lattice with a one-point range in one of its '
-                              f'own dimensions rejected: {conv.msg[:150]}',
-                              {'input': payload},
-                              cls='degenerate_range_rejected',
-                              found_input=True)
-                continue
             res.violation('impl-violation',
                           f'valid lattice deck rejected: {conv.exc}: '
                           f'{conv.msg[:200]}', {'input': payload},
@@ -1082,7 +1084,7 @@ CORPUS_SHAPES = [
     {'d': 3, 'kind': 'ortho', 'rpp': True, 'homogeneous': False},
     {'d': 3, 'kind': 'ortho', 'rpp': True, 'homogeneous': True,
      'fill_tr': True, 'fill_tr_mode': 'transl'},
-    # one-point ranges in the lattice's own dimensions (open finding)
+    # one-point ranges in the lattice's own dimensions (9b5a8f0)
     {'d': 2, 'kind': 'ortho', 'homogeneous': False, 'keep_degenerate': True,
      'ranges': [(-1, 1), (2, 2)]},
     {'d': 1, 'kind': 'rot', 'homogeneous': False, 'keep_degenerate': True,
